@@ -555,6 +555,12 @@ func (cv *Conv) Exec(e *Edge) (divs []evid.Div, fatal error) {
 					Msg: fmt.Sprintf("%s in state %s: no reply - %v\n%s", e.Lbl.Cmd, stShort(e.Src), stuck, stuck.Dump), Replay: replayOf(cv, e)}
 				cv.Labels = append(cv.Labels, e.Lbl)
 				out := []evid.Div{d}
+				if strings.HasPrefix(e.Lbl.Cmd.C, "BDAT") && hp != "C05" {
+					// "each BDAT command gets exactly one reply" is C05's clause as well
+					d5 := d
+					d5.Prop = "C05"
+					out = append(out, d5)
+				}
 				if hp != "C08" {
 					// does the wedged connection at least end when its peer goes away?
 					cv.C.Abort()
